@@ -33,7 +33,7 @@ build() { # build <variant>
     ovl|portable)
       local od="$BIN/overlay-$variant-$(basename "$MODFILE" .mod)"
       rm -rf "$od"; python3 "$VERIF/tools/mkoverlay.py" "$REPO" "$od" "$variant" >/dev/null || return 2
-      "$GO" build -modfile="$MODFILE" -tags verif -overlay "$od/overlay-$variant.json" -o "$out" ./cmd/vcheck ;;
+      "$GO" build -modfile="$MODFILE" -tags "verif verifkern" -overlay "$od/overlay-$variant.json" -o "$out" ./cmd/vcheck ;;
     *) echo "unknown variant $variant" >&2; return 2 ;;
   esac || { echo "ERROR build of variant $variant failed" >&2; return 2; }
   echo "$out"
